@@ -482,6 +482,9 @@ def main(prop, module, build_configs, meta):
     ap.add_argument('--list', action='store_true')
     ap.add_argument('--inline', action='store_true', help='run configurations in-process (debugging)')
     ap.add_argument('--no-evidence', action='store_true')
+    ap.add_argument('--float-selftest', action='store_true',
+                    help='maintenance: run every configuration in replay (float) mode at its nominal values; on a tree where the '
+                         'property holds every obligation must pass (validates the replay side of the harness)')
     a = ap.parse_args()
     seed = int(os.environ.get('VERIF_SEED', '0'))
     tier = a.tier if a.tier in ('quick', 'thorough') else 'quick'
@@ -518,6 +521,21 @@ def main(prop, module, build_configs, meta):
         return 0
     names = [c['name'] for c in cfgs]
     assert len(set(names)) == len(names), 'duplicate configuration names'
+    if a.float_selftest:
+        from concurrent.futures import ProcessPoolExecutor
+        bad = 0
+        with ProcessPoolExecutor(max_workers=a.jobs, mp_context=mp.get_context('fork')) as ex:
+            futs = [(c['name'], ex.submit(run_config_float, c['name'], c['fn'], c.get('kw', {}), tier, seed, {})) for c in cfgs]
+            for name, f in futs:
+                try:
+                    r = f.result(timeout=1800)
+                except Exception as e:   # noqa
+                    r = dict(status='error', error=repr(e), failed=[])
+                if r['status'] == 'error' or r['failed']:
+                    bad += 1
+                    print('FLOAT-SELFTEST %s: %s %s %s' % (name, r['status'], r.get('error', ''), r['failed'][:3]))
+        print('float selftest: %d configurations, %d with failures' % (len(cfgs), bad))
+        return 0 if bad == 0 else 2
     default_timeout = meta.get('config_timeout', {}).get(tier, 240 if tier == 'quick' else 1500)
     if a.inline:
         results = {c['name']: run_config_sym(c['name'], c['fn'], c.get('kw', {}), tier, seed, c.get('opts', {})) for c in cfgs}
